@@ -573,6 +573,20 @@ def _canonical_comparisons(tree: ast.Module) -> None:
         return isinstance(e, ast.Constant) or (isinstance(e, ast.Name) and e.id in _SENTINEL_NAMES) or \
             (isinstance(e, ast.Attribute) and isinstance(e.value, ast.Name) and e.attr in ("masked",) and e.value.id in ("ma",)) or \
             (isinstance(e, ast.Attribute) and norm(e) in ("np.ma.masked", "sympy.S.Zero", "sympy.S.One", "S.Zero", "S.One"))
+    # `not (a is b)` / `not (a in b)` / `not (a == b)` read `a is not b` / `a not in b` / `a != b`
+    class _Neg(ast.NodeTransformer):
+        def visit_UnaryOp(self, node):
+            self.generic_visit(node)
+            flip = {ast.Is: ast.IsNot, ast.In: ast.NotIn, ast.Eq: ast.NotEq}
+            if isinstance(node.op, ast.Not) and isinstance(node.operand, ast.Compare) and len(node.operand.ops) == 1 \
+                    and type(node.operand.ops[0]) in flip:
+                c = node.operand
+                return ast.copy_location(ast.Compare(left=c.left, ops=[flip[type(c.ops[0])]()], comparators=c.comparators), node)
+            return node
+    _Neg().visit(tree)
+    for node_ in ast.walk(tree):
+        for child_ in ast.iter_child_nodes(node_):
+            child_._parent = node_  # type: ignore[attr-defined]
     for n in ast.walk(tree):
         if isinstance(n, ast.Compare) and len(n.ops) == 1 and isinstance(n.ops[0], (ast.Eq, ast.NotEq, ast.Is, ast.IsNot)) \
                 and sentinel(n.left) and not sentinel(n.comparators[0]):
@@ -661,6 +675,33 @@ def _fold_conditional_assignments(tree: ast.Module) -> int:
                     new = ast.Assign(targets=[ast.Name(id=s_.body[0].targets[0].id, ctx=ast.Store())],
                                      value=ast.IfExp(test=s_.test, body=s_.body[0].value, orelse=s_.orelse[0].value))
                     blk[i] = ast.fix_missing_locations(ast.copy_location(new, s_))
+                    n_folded += 1
+    if n_folded:
+        for node in ast.walk(tree):
+            for child in ast.iter_child_nodes(node):
+                child._parent = node  # type: ignore[attr-defined]
+    return n_folded
+
+
+def _fold_return_temps(tree: ast.Module) -> int:
+    """`x = E` directly followed by `return x`, with no other occurrence of `x` in the function, reads `return E`."""
+    n_folded = 0
+    for fn in ast.walk(tree):
+        if not isinstance(fn, (ast.FunctionDef, ast.AsyncFunctionDef)):
+            continue
+        counts: dict = {}
+        for x in ast.walk(fn):
+            if isinstance(x, ast.Name):
+                counts[x.id] = counts.get(x.id, 0) + 1
+        for host in ast.walk(fn):
+            for field in ("body", "orelse", "finalbody"):
+                blk = getattr(host, field, None)
+                if not (isinstance(blk, list) and len(blk) >= 2 and isinstance(blk[0], ast.stmt)):
+                    continue
+                a, r = blk[-2], blk[-1]
+                if isinstance(r, ast.Return) and isinstance(r.value, ast.Name) and isinstance(a, ast.Assign) and len(a.targets) == 1 \
+                        and isinstance(a.targets[0], ast.Name) and a.targets[0].id == r.value.id and counts.get(r.value.id) == 2:
+                    blk[-2:] = [ast.copy_location(ast.Return(value=a.value), a)]
                     n_folded += 1
     if n_folded:
         for node in ast.walk(tree):
@@ -763,6 +804,7 @@ class Repo:
                 for child in ast.iter_child_nodes(node):
                     child._parent = node  # type: ignore[attr-defined]
             _fold_fill_loops(tree)
+            _fold_return_temps(tree)
             _inline_generators(tree)
             _inline_context_managers(tree)
             # _inline_unknown_helpers(tree) is NOT applied globally: seeing through every helper the rules do not name weakens the
